@@ -191,6 +191,19 @@ pub fn gen(seed: u64, thorough: bool, _only: Option<u64>, out: &mut Out) {
     emit("adss", e, out);
     mutate_all("adss", e, &mut r, thorough || i == 0, out);
   }
+  // the shortest honest shares: empty or one-byte message and coins (a share of an empty sharing is the shortest
+  // string the decoder must still accept), every threshold width
+  for (ml, rl) in [(0usize, 0usize), (1, 0), (0, 1), (1, 1), (0, 16), (16, 0)] {
+    for t in [1u32, 2, 256, 65536] {
+      let c = Commune::new(t, r.blob(ml), r.blob(rl), None);
+      if let Ok(sh) = c.share() {
+        emit("adss", &sh.to_bytes(), out);
+      }
+      if t > 2 {
+        break;
+      }
+    }
+  }
   for (i, e) in msgs.iter().enumerate() {
     emit("star", e, out);
     mutate_all("star", e, &mut r, thorough && i < 4, out);
@@ -245,6 +258,27 @@ pub fn gen_degenerate(seed: u64, thorough: bool, out: &mut Out) {
       let enc: Vec<Vec<u8>> = (0..t as usize + 1).filter_map(|_| c.clone().share().ok().map(|s| s.to_bytes())).collect();
       if enc.len() != t as usize + 1 {
         continue;
+      }
+      // a share without y values and with a point of its own (one above / one below the next share's), placed first,
+      // in the middle and last
+      if t >= 2 {
+        for delta in [1u8, 0xff] {
+          for pos in [0usize, 1, t as usize - 1] {
+            let mut col: Vec<Vec<u8>> = enc[..t as usize].to_vec();
+            if let Some(f) = split_share(&col[pos]) {
+              let mut x = split_share(&enc[(pos + 1) % t as usize]).map(|g| g.s[..24].to_vec()).unwrap_or(vec![1; 24]);
+              x[0] = x[0].wrapping_add(delta);
+              let g = ShareFields { a: f.a.clone(), s: x, c: f.c.clone(), d: f.d.clone(), j: f.j.clone() };
+              col[pos] = join_share(&g);
+              let obs = match decode_all(&col) {
+                Some(d) => recover_obs(&d),
+                None => "err".into(),
+              };
+              let v = if obs == "panic" { Err(format!("recovery panicked on a quorum of threshold {} whose share {} has no y values and a point of its own", t, pos)) } else { Ok(()) };
+              out.case(format!("adss.recover {}", col.iter().map(|b| hex(b)).collect::<Vec<_>>().join(" ")), obs, v);
+            }
+          }
+        }
       }
       let pm1 = { let mut b = vec![0u8; 24]; b[..16].copy_from_slice(&12450u128.to_le_bytes()); b[16] = 1; b };
       let forged: Vec<(&str, Vec<u8>)> = vec![("zero", vec![0u8; 24]), ("p-1", pm1), ("copy", enc[(t as usize).min(1)][8..32].to_vec())];
